@@ -62,11 +62,12 @@ func (r *recorder) add(kind, s string, n int) {
 type conn struct {
 	rec       *recorder
 	r         *runner
-	gen       int32         // serve cycle this connection was created for
-	failSub   bool          // every subscription is refused (scenario d9)
-	closeGate chan struct{} // when set, Close blocks on it after marking the connection closed (scenario d9)
-	closing   chan struct{} // closed when Close has been entered (scenario d9)
-	sendMu    sync.RWMutex  // held (R) by the harness while it delivers a message, (W) by Close
+	gen       int32                     // serve cycle this connection was created for
+	failSub   bool                      // every subscription is refused (scenario d9)
+	closeGate chan struct{}             // when set, Close blocks on it after marking the connection closed (scenario d9)
+	closing   chan struct{}             // closed when Close has been entered (scenario d9)
+	qsubs     map[string]chan *nats.Msg // query-event inbox subscriptions (subject -> channel)
+	sendMu    sync.RWMutex              // held (R) by the harness while it delivers a message, (W) by Close
 	mu        sync.Mutex
 	inCh      chan *nats.Msg
 	closed    bool
@@ -110,7 +111,12 @@ func (c *conn) ChanSubscribe(subject string, ch chan *nats.Msg) (*nats.Subscript
 		c.mu.Unlock()
 		return nil, errors.New("subscription refused")
 	}
-	if c.inCh == nil {
+	if strings.HasPrefix(subject, "_INBOX.") {
+		if c.qsubs == nil {
+			c.qsubs = map[string]chan *nats.Msg{}
+		}
+		c.qsubs[subject] = ch
+	} else if c.inCh == nil {
 		c.inCh = ch
 	}
 	c.mu.Unlock()
@@ -188,6 +194,7 @@ type runner struct {
 	shutdowns   int32
 	dfltCtr     int32
 	curGen      int32
+	sharedErrs  sync.Map     // c/2 -> *res.Error without code, sent by the handlers of requests c and c+1
 	unmatched   sync.Map     // c -> true for requests sent to a resource no handler matches
 	resets      [8]int32     // system.reset messages seen per connection generation
 	onConnClose atomic.Value // func(), called at the end of conn.Close
@@ -288,6 +295,13 @@ func (r *runner) submit(g string) {
 		}); err == nil {
 			r.violation("with-nomatch-no-error: With on an unmatched resource id returned nil")
 		}
+		// a matching id that the router only finds by backtracking out of a literal branch must be accepted
+		gb := "svc.bt.lit.other"
+		cbt := r.newCb(gb)
+		r.pushSub(gb, cbt)
+		if err := r.s.With(gb, func(res.Resource) { r.body(cbt, gb, false) }); err != nil {
+			r.violation("with-error: With reported an error for " + gb + ", which the handler pattern bt.$x.other matches: " + err.Error())
+		}
 		// ... also for ids that merely START with the service name or miss the separator
 		for _, id := range []string{fmt.Sprintf("svc_item.%d.%s", c, g), fmt.Sprintf("svcitem.%d.%s", c, g), "svc", "sv.par.1", fmt.Sprintf("svc.item.%d", c)} {
 			id := id
@@ -384,8 +398,19 @@ func (r *runner) newService(c *conn) *res.Service {
 	s.Handle("item.$c.$g", res.Group("${g}"), res.GetResource(func(q res.GetRequest) {
 		c, _ := strconv.Atoi(q.PathParam("c"))
 		r.body(c, q.PathParam("g"), false)
-		q.NotFound()
+		if c%3 != 1 {
+			// an application error value WITHOUT code, shared by the handlers of two consecutive requests (usually of
+			// different groups, hence possibly executing at the same time): the library may read it, never write to it
+			v, _ := r.sharedErrs.LoadOrStore(c/2, &res.Error{Message: "shared application error"})
+			q.Error(v.(*res.Error))
+		} else {
+			q.NotFound()
+		}
 	}))
+	// two patterns that share a prefix and diverge literal vs placeholder, both continuing deeper: a name that enters
+	// the literal branch but matches only through the placeholder needs backtracking in the router
+	s.Handle("bt.lit.deep", res.GetResource(func(q res.GetRequest) { q.NotFound() }))
+	s.Handle("bt.$x.other", res.GetResource(func(q res.GetRequest) { q.NotFound() }))
 	sub := res.NewMux("")
 	s.Mount("sub", sub)
 	s.Handle("sub.dflt.$k", res.GetResource(func(q res.GetRequest) { q.NotFound() }))
@@ -489,7 +514,11 @@ func (r *runner) run() bool {
 		c = &conn{rec: r.rec, r: r, gen: int32(cyc)}
 		atomic.StoreInt32(&r.curGen, int32(cyc))
 		served := make(chan error, 1)
-		r.rec.add("cycle-begin", "", sc.Workers)
+		effWorkers := sc.Workers
+		if effWorkers <= 0 {
+			effWorkers = 32 // SetWorkerCount documents: a value less or equal to zero means the default
+		}
+		r.rec.add("cycle-begin", "", effWorkers)
 		var startupWG sync.WaitGroup
 		stopStartup := make(chan struct{})
 		if sc.Kind == "d6" {
@@ -697,11 +726,20 @@ func (r *runner) run() bool {
 			if g == "" {
 				g = "g1"
 			}
+			if sc.Seed%4 == 1 {
+				g = "" // a Parallel resource: its callbacks are not serialised, but Shutdown must drain them all the same
+			}
 			emit := func(c1 int, during bool) {
 				inCb := make(chan struct{})
 				release := make(chan struct{})
+				var returned int32
+				rid := fmt.Sprintf("svc.item.%d.%s", c1, g)
+				if g == "" {
+					rid = fmt.Sprintf("svc.par.%d", c1)
+				}
 				r.pushSub(g, c1)
-				if err := s.With(fmt.Sprintf("svc.item.%d.%s", c1, g), func(rs res.Resource) {
+				if err := s.With(rid, func(rs res.Resource) {
+					defer atomic.StoreInt32(&returned, 1)
 					r.rec.add("run", g, c1)
 					defer r.rec.add("ret", g, c1)
 					defer func() {
@@ -742,8 +780,16 @@ func (r *runner) run() bool {
 					case <-time.After(3 * time.Second):
 					}
 					time.Sleep(time.Duration(sc.Seed%3) * time.Millisecond)
-					close(release)
-					ok = <-shutDone
+					select {
+					case ok = <-shutDone:
+						if atomic.LoadInt32(&returned) == 0 {
+							r.violation("drain: Shutdown returned while a callback that had started was still executing")
+						}
+						close(release)
+					case <-time.After(10 * time.Millisecond):
+						close(release)
+						ok = <-shutDone
+					}
 					r.onConnClose.Store((func())(nil))
 				} else {
 					close(release)
@@ -762,6 +808,61 @@ func (r *runner) run() bool {
 				if sc.Shutdown == "after" {
 					ok = r.shutdown(s)
 				}
+			}
+		case "d10": // query-request and query-expiry callbacks of a query event must be serialised with the resource's group:
+			// while a callback of group G is executing, a query request arrives on a query event of a resource of G and the
+			// event expires; neither callback may start before the executing one has returned
+			g := sc.Groups[0]
+			if g == "" {
+				g = "g1"
+			}
+			c1, cq, cNil := r.newCb(g), r.newCb(g), r.newCb(g)
+			inCb := make(chan struct{})
+			release := make(chan struct{})
+			r.pushSub(g, c1)
+			if err := s.With(fmt.Sprintf("svc.item.%d.%s", c1, g), func(rs res.Resource) {
+				r.rec.add("run", g, c1)
+				v, _ := r.occupancy.LoadOrStore(g, new(int32))
+				if atomic.AddInt32(v.(*int32), 1) > 1 {
+					r.violation("group-overlap: two callbacks of group " + g + " executing at once")
+				}
+				rs.QueryEvent(func(q res.QueryRequest) {
+					if q == nil {
+						r.body(cNil, g, false)
+						return
+					}
+					r.body(cq, g, false)
+					q.NotFound()
+				})
+				close(inCb)
+				<-release
+				atomic.AddInt32(v.(*int32), -1)
+				r.rec.add("ret", g, c1)
+			}); err != nil {
+				r.violation("with-error: " + err.Error())
+			}
+			<-inCb
+			var qch chan *nats.Msg
+			var qsubj string
+			c.mu.Lock()
+			for sj, ch := range c.qsubs {
+				qsubj, qch = sj, ch
+			}
+			c.mu.Unlock()
+			// the callbacks are submitted by the query listener goroutine, in this order
+			r.lsub.mu.Lock()
+			r.lsub.q = append(r.lsub.q, submission{g, cq}, submission{g, cNil})
+			r.lsub.mu.Unlock()
+			if qch != nil {
+				qch <- &nats.Msg{Subject: qsubj, Reply: fmt.Sprintf("Q%d", cq), Data: []byte(`{"query":"a=1"}`)}
+			} else {
+				r.violation("harness-query: no query event subscription was made")
+			}
+			time.Sleep(40 * time.Millisecond) // the request is forwarded and the event (15 ms) expires while c1 is still executing
+			close(release)
+			r.settle(2 * time.Second)
+			if cyc < sc.Cycles-1 || sc.Shutdown == "after" {
+				ok = r.shutdown(s)
 			}
 		case "burst": // several goroutines submit to the same IDLE group at the same instant (spin barrier), round after
 			// round on fresh groups: the lookup-or-create of a group's work item must be one atomic step
@@ -1091,8 +1192,24 @@ func (r *runner) runRestartLoop() bool {
 	late := 0
 	for i := 1; i <= rounds; i++ {
 		atomic.StoreInt32(&r.resets[(i+1)%8], 0)
-		if err := s.Shutdown(); err != nil {
-			r.violation(fmt.Sprintf("shutdown-error: round %d: Shutdown of the served service returned: %v", i, err))
+		var e2 error
+		second := make(chan struct{})
+		if i%3 == 0 {
+			// a second, concurrent Shutdown: exactly one of the two calls stops the service, the other is refused
+			go func() { e2 = s.Shutdown(); close(second) }()
+		} else {
+			e2 = errors.New("res: service is not started")
+			close(second)
+		}
+		e1 := s.Shutdown()
+		select {
+		case <-second:
+		case <-time.After(5 * time.Second):
+			r.violation(fmt.Sprintf("shutdown-hang: round %d: a second, concurrent Shutdown call did not return within 5s", i))
+			return false
+		}
+		if (e1 == nil) == (e2 == nil) {
+			r.violation(fmt.Sprintf("shutdown-twice: round %d: two concurrent Shutdown calls returned %v and %v: exactly one of them stops the service, the other is refused as not started", i, e1, e2))
 			return false
 		}
 		cn := &conn{rec: c.rec, r: r, gen: int32(i)}
@@ -1500,6 +1617,11 @@ func main() {
 			scs = append(scs, scenario{Kind: "stress", Workers: []int{1, 2, 4}[rng.Intn(3)], InCh: 1024, Producers: 3 + rng.Intn(4),
 				PerProd: 400, Groups: groupSets[rng.Intn(2)], Cycles: 1, Shutdown: "none", Seed: rng.Next() % 1000000})
 		}
+		// the documented "default" worker count 0
+		for i := 0; i < 2; i++ {
+			scs = append(scs, scenario{Kind: "random", Workers: 0, InCh: 1024, Producers: 2 + rng.Intn(3), PerProd: 3 + rng.Intn(4),
+				Groups: groupSets[rng.Intn(3)], Requests: 4, Cycles: 1, Shutdown: []string{"none", "after"}[i%2], Seed: rng.Next() % 1000000})
+		}
 		nb := 3
 		if o.Tier == "thorough" {
 			nb = 30
@@ -1532,7 +1654,7 @@ func main() {
 				Cycles: 2 + rng.Intn(2), Shutdown: []string{"none", "after"}[rng.Intn(2)], Seed: rng.Next() % 1000000})
 		}
 		for i := 0; i < nd; i++ {
-			for _, k := range []string{"d1", "d2", "d3", "d4", "d5", "d6", "d7"} {
+			for _, k := range []string{"d1", "d2", "d3", "d4", "d5", "d6", "d7", "d10"} {
 				sc := scenario{Kind: k, Workers: []int{1, 2, 32}[rng.Intn(3)], InCh: 1024, Groups: groupSets[rng.Intn(3)],
 					Cycles: 1 + rng.Intn(2), Shutdown: "after", Seed: rng.Next() % 1000000}
 				scs = append(scs, sc)
@@ -1579,7 +1701,7 @@ func main() {
 	}
 	hdr := "From stdpp Require Import gmap.\nFrom Coq Require Import NArith String.\nFrom GoRes Require Import Run.Run_" + runMod + ".\nLocal Open Scope string_scope."
 	Emit(o, *prop, hdr, "scase",
-		"real res.Service runs (worker counts 1/2/3/8/32, in-channel 1/2/1024, 1-6 producer goroutines using WithGroup incl. nested submissions from callbacks, requests through the in-channel incl. Parallel resources, publishers, 1-3 serve/shutdown cycles, shutdown after/during/none, seeded schedule perturbation at hook points) + directed schedules d1-d9 (enqueue after close-nil, publish after shutdown, append before re-lock, parked Signal, producers during parked close, ResetAll during Serve start-up, query expiry during Shutdown with a same-group callback in flight, an in-flight callback emitting an event and a query event after the connection was closed followed by a serve cycle on a new connection; d9: first Serve refused its subscriptions while a With callback from the started window is in flight or the first Close is slow, Serve retried in a loop on a new connection - runtime checks only; restartloop (C03 only): 1500 stop/start cycles with Serve called as soon as Shutdown has returned - runtime checks only) + simultaneous submissions to an idle group behind a spin barrier (burst) + high-contention stress runs (thousands of tiny callbacks on 1-2 groups); every serve cycle gets a fresh connection object and anything published on an earlier one is a violation; one case = one run's label trace; non-trivial = a callback was appended to a live work item and >= 2 workers took work, or a directed schedule; distinct by trace",
+		"real res.Service runs (worker counts 1/2/3/8/32, in-channel 1/2/1024, 1-6 producer goroutines using WithGroup incl. nested submissions from callbacks, requests through the in-channel incl. Parallel resources, publishers, 1-3 serve/shutdown cycles, shutdown after/during/none, seeded schedule perturbation at hook points) + directed schedules d1-d10 (enqueue after close-nil, publish after shutdown, append before re-lock, parked Signal, producers during parked close, ResetAll during Serve start-up, query expiry during Shutdown with a same-group callback in flight, an in-flight callback emitting an event and a query event after the connection was closed followed by a serve cycle on a new connection; d9: first Serve refused its subscriptions while a With callback from the started window is in flight or the first Close is slow, Serve retried in a loop on a new connection - runtime checks only; d10: a query request and the expiry of a query event while a callback of the resource's group is executing; restartloop (C03 only): 1500 stop/start cycles with Serve called as soon as Shutdown has returned - runtime checks only) + simultaneous submissions to an idle group behind a spin barrier (burst) + high-contention stress runs (thousands of tiny callbacks on 1-2 groups); every serve cycle gets a fresh connection object and anything published on an earlier one is a violation; one case = one run's label trace; non-trivial = a callback was appended to a live work item and >= 2 workers took work, or a directed schedule; distinct by trace",
 		cases, dist, nil, impl, 40)
 	if len(impl) > 0 {
 		fmt.Fprintln(os.Stderr, "impl violations:", len(impl))
